@@ -285,3 +285,43 @@ Proof.
     + rewrite app_assoc. eapply reach_app; [exact R1'|]. simpl. rewrite S2. reflexivity.
     + split; [congruence | exact L2].
 Qed.
+
+(* --- a stop request is never blocked: the worker's own next events take it out of execution_loop --- *)
+(* what a worker at program point p does when asked to stop: the finally clause releases the lock it holds
+   (if it holds one), then execution_loop is left with the exception's exit status *)
+Definition stop_trace {V} (p : pc V) (w : wid) (code : nat) : list (ev V) :=
+  EInterrupt w :: (match holding p with Some t => [EUnlock w t] | None => [] end) ++ [EExit w code].
+
+Ltac stop_fin :=
+  eexists; (split; [reflexivity|]);
+  cbn [ws tick set_w set_lock results locks]; rewrite ?updw_same; cbn [w_pc set_pc];
+  (split; [reflexivity|]); (split; [reflexivity|]); split;
+  [ intro t0; unfold upd; reflexivity
+  | intros w' Hn; rewrite ?updw_other by exact Hn; reflexivity ].
+Ltac stop_holding H :=
+  rewrite H; unfold stop_trace, holding; cbn [app run];
+  unfold step at 1, step0; rewrite H; cbn [option_map];
+  unfold step at 1, step0; cbn [ws tick set_w]; rewrite updw_same; cbn [w_pc act set_intr]; rewrite Pos.eqb_refl; cbn [option_map];
+  unfold step at 1, step0; cbn [ws tick set_w set_lock]; rewrite updw_same; cbn [w_pc w_intr act set_intr orb option_map];
+  stop_fin.
+
+Theorem stop_request_leads_to_exit : forall (V : Type) (C : cfg V) (s : st V) w code,
+  (w_pc (ws s w) = PIdle \/ exists t, w_pc (ws s w) = PLocked t \/ w_pc (ws s w) = PCleared t \/ w_pc (ws s w) = PSkip t \/
+                                 w_pc (ws s w) = PRunning t \/ (exists v, w_pc (ws s w) = PRan t v) \/ w_pc (ws s w) = PStored t) ->
+  exists s', run C s (stop_trace (w_pc (ws s w)) w code) = Some s' /\
+    w_pc (ws s' w) = PDone code /\ results s' = results s /\
+    (forall t, locks s' t = match holding (w_pc (ws s w)) with
+                            | Some t' => if Pos.eqb t t' then LFree else locks s t
+                            | None => locks s t end) /\
+    (forall w', w' <> w -> ws s' w' = ws s w').
+Proof.
+  intros V C s w code H.
+  destruct H as [H | [t [H | [H | [H | [H | [[v H] | H]]]]]]]; [|stop_holding H ..].
+  rewrite H; unfold stop_trace, holding; cbn [app run].
+  unfold step at 1, step0; rewrite H; cbn [option_map].
+  unfold step at 1, step0; cbn [ws tick set_w]; rewrite updw_same; cbn [w_pc w_intr act set_intr orb option_map].
+  eexists; (split; [reflexivity|]);
+  cbn [ws tick set_w set_lock results locks]; rewrite ?updw_same; cbn [w_pc set_pc];
+  (split; [reflexivity|]); (split; [reflexivity|]); split;
+  [ intro t0; reflexivity | intros w' Hn; rewrite ?updw_other by exact Hn; reflexivity ].
+Qed.
